@@ -385,6 +385,11 @@ pub fn impl_(ctx: &Context, input: &DeriveInput) -> TokenStream {
                 __flatty_bytes: &'__flatty_a mut [u8],
             ) -> Result<&'__flatty_a mut #self_ident<#self_args>, ::flatty::Error> {
                 use ::flatty::{traits::*, utils::iter::{prelude::*, self}};
+                // Only the part covered by `Self::ptr_from_bytes` belongs to the new value.
+                let __flatty_bytes = {
+                    let __flatty_len = ::flatty::utils::floor_mul(__flatty_bytes.len(), <#self_ident<#self_args> as FlatBase>::ALIGN);
+                    __flatty_bytes.get_unchecked_mut(..__flatty_len)
+                };
                 #body
                 Ok(unsafe { #self_ident::<#self_args>::from_mut_bytes_unchecked(__flatty_bytes) } )
             }
